@@ -225,7 +225,7 @@ pub fn check_event(ev: &Event, st: &mut Stats, out: &mut Vec<Viol>) {
     for m in &post.g1 { if m.contains("key id occurs twice") { v(out, "C04", "dup-key", format!("after {}: {}", op.to_text(), m)); } }
     if !post.g1.is_empty() { return; }
     // a forgotten iterator: C17 territory (handled by the engine); only the yields are judged here
-    if let Op::Iterate { kind, calls, forget: true } = op { check_iter(ev, *kind, calls, true, Some(post), st, out); return; }
+    if let Op::Iterate { kind, calls, forget: true, .. } = op { check_iter(ev, *kind, calls, true, Some(post), st, out); return; }
     if post.table_at != pre.table_at { st.count("reallocations"); }
     st.max("max_len", post.len as u64);
     let sp = spec(ev);
@@ -435,7 +435,7 @@ pub fn check_event(ev: &Event, st: &mut Stats, out: &mut Vec<Viol>) {
     }
 
     // ------------------------------------------------------------ C12 (iterate events inside histories)
-    if let Op::Iterate { kind, calls, forget } = op { check_iter(ev, *kind, calls, *forget, Some(post), st, out); }
+    if let Op::Iterate { kind, calls, forget, .. } = op { check_iter(ev, *kind, calls, *forget, Some(post), st, out); }
 
     // ------------------------------------------------------------ C13
     {
@@ -582,6 +582,29 @@ pub fn check_iter(ev: &Event, kind: u8, calls: &[bool], forget: bool, post: Opti
             exhausted_seen = true;
         }
     }
+    // ---- the finishing call: Iterator's provided methods must agree with what next/next_back would still yield
+    let fin = match op { Op::Iterate { fin, .. } | Op::Into { fin, .. } => *fin, _ => 0 };
+    if fin != 0 && o.fin_ran && !(exhausted_seen && !fused) {
+        let rem = &pre.ents[f..b];
+        let same = |y: &Yield, e: &Ent| -> bool {
+            let k_ok = match kind { IT_VALUES | IT_INTO_VALUES => y.k.is_none(), _ => y.k == Some(e.kuid) };
+            let v_ok = match kind { IT_KEYS | IT_INTO_KEYS => y.v.is_none(), _ => y.v == Some(e.vuid) };
+            !y.none && k_ok && v_ok
+        };
+        let items_match = |want: Vec<&Ent>| -> bool { o.fin_items.len() == want.len() && o.fin_items.iter().zip(want.iter()).all(|(y, e)| same(y, e)) };
+        let ok = match fin {
+            1 => items_match(rem.last().into_iter().collect()),
+            2 => o.fin_count == rem.len(),
+            3 => items_match(rem.get(1).into_iter().collect()),
+            4 => items_match(if rem.len() >= 2 { vec![&rem[rem.len() - 2]] } else { vec![] }),
+            5 => o.fin_hint.0 <= rem.len() && o.fin_hint.1.map_or(true, |u| u >= rem.len()),
+            6 => items_match(rem.iter().collect()),
+            _ => items_match(rem.iter().rev().collect()),
+        };
+        st.countf(format_args!("c12_finisher_{}", FIN_NAMES[fin as usize]));
+        if rem.is_empty() { st.count("c12_finisher_on_exhausted"); }
+        if !ok { v(out, "C12", "finisher", format!("{}: after the calls {} entries remain ({:?}); {}() produced {:?} / count {} / size_hint {:?}", op.to_text(), rem.len(), rem.iter().map(|e| e.id).collect::<Vec<_>>(), FIN_NAMES[fin as usize], o.fin_items.iter().map(|y| (y.k, y.v)).collect::<Vec<_>>(), o.fin_count, o.fin_hint)); return; }
+    }
     match kind {
         IT_ITER | IT_KEYS | IT_VALUES => {
             if let Some(post) = post { if post.fingerprint != pre.fingerprint || post != pre { v(out, "C12", "borrowing-changed", format!("{} changed the cache", op.to_text())); } }
@@ -593,7 +616,7 @@ pub fn check_iter(ev: &Event, kind: u8, calls: &[bool], forget: bool, post: Opti
                 }
             }
             // ledger: everything not yielded was dropped by the drain, everything yielded is held by the harness
-            let yielded: BTreeSet<u64> = o.yields.iter().flat_map(|y| [y.k, y.v]).flatten().collect();
+            let yielded: BTreeSet<u64> = o.yields.iter().chain(o.fin_items.iter()).flat_map(|y| [y.k, y.v]).flatten().collect();
             for e in &pre.ents { for u in [e.kuid, e.vuid] { let st8 = ledger_state(u); if yielded.contains(&u) { if st8 != 1 { v(out, "C12", "yielded-dropped", format!("{}: yielded object {} is not alive", op.to_text(), u)); } } else if st8 != 2 { v(out, "C12", "unconsumed-not-dropped", format!("{}: unconsumed object {} was dropped {} times", op.to_text(), u, st8 as i32 - 1)); } } }
         }
         _ => {}
@@ -602,13 +625,13 @@ pub fn check_iter(ev: &Event, kind: u8, calls: &[bool], forget: bool, post: Opti
 
 /// Events that consumed the cache (into_iter / into_keys / into_values).
 fn check_consumed(ev: &Event, st: &mut Stats, out: &mut Vec<Viol>) {
-    if let Op::Into { kind, calls, forget } = ev.op {
+    if let Op::Into { kind, calls, forget, .. } = ev.op {
         check_iter(ev, *kind, calls, *forget, None, st, out);
         let o = ev.out;
         if !*forget {
             // owning iterators drop whatever was not consumed; yielded objects are alive in the harness' hands.
             // into_keys / into_values drop the other half of each yielded pair themselves.
-            let yielded: BTreeSet<u64> = o.yields.iter().flat_map(|y| [y.k, y.v]).flatten().collect();
+            let yielded: BTreeSet<u64> = o.yields.iter().chain(o.fin_items.iter()).flat_map(|y| [y.k, y.v]).flatten().collect();
             for e in &ev.pre.ents { for u in [e.kuid, e.vuid] {
                 let s8 = ledger_state(u);
                 if yielded.contains(&u) { if s8 != 1 { v(out, "C12", "yielded-dropped", format!("{}: yielded object {} is not alive", ev.op.to_text(), u)); } }
